@@ -7,6 +7,17 @@ let n_of_int (i : int) : n = if i <= 0 then N0 else Npos (pos_of_int i)
 let int_of_n (x : n) : int = match x with N0 -> 0 | Npos p -> int_of_pos p
 let z_of_int (i : int) : z = if i = 0 then Z0 else if i > 0 then Zpos (pos_of_int i) else Zneg (pos_of_int (-i))
 let int_of_z (x : z) : int = match x with Z0 -> 0 | Zpos p -> int_of_pos p | Zneg p -> - (int_of_pos p)
+(* arbitrary-size decimal printing (OCaml ints are 63-bit; int64 values such as 2^63-1 must print exactly) *)
+let dec_of_pos (p : positive) : string =
+  let rec bits p acc = match p with XH -> 1 :: acc | XO q -> bits q (0 :: acc) | XI q -> bits q (1 :: acc) in
+  let digits = ref [0] in    (* little endian decimal digits *)
+  List.iter (fun b ->
+    let carry = ref b in
+    digits := List.map (fun d -> let v = d * 2 + !carry in carry := v / 10; v mod 10) !digits;
+    if !carry > 0 then digits := !digits @ [!carry]) (bits p []);
+  String.concat "" (List.rev_map string_of_int !digits)
+let dec_of_n (x : n) : string = match x with N0 -> "0" | Npos p -> dec_of_pos p
+let dec_of_z (x : z) : string = match x with Z0 -> "0" | Zpos p -> dec_of_pos p | Zneg p -> "-" ^ dec_of_pos p
 let rec nat_of_int (i : int) : nat = if i <= 0 then O else S (nat_of_int (i - 1))
 let int_of_nat (x : nat) : int = let rec go acc = function O -> acc | S k -> go (acc + 1) k in go 0 x
 
